@@ -1642,6 +1642,22 @@ func suiteSavedRuns(c *Ctx) {
 			dss = append(dss, ds)
 		}
 	}
+	// the shipped engine data with every cost on an exact half cent: the Saver decompresses member k+1 into the model member k
+	// left behind, so a rounding that does not mirror (+c / -c) leaves a cent in later rows (seed C12k); judged Go against Go
+	{
+		repo := os.Getenv("VERIF_REPO")
+		if repo == "" {
+			repo = "/repo"
+		}
+		tieDir := filepath.Join(c.Out, "tie-ds")
+		if p := protect(func() { genTieDataset(repo, tieDir) }); p == "" {
+			ds := filepath.Join(tieDir, "TieModel.csv")
+			if ref, err := newRef(ds, -1, 0); err == nil {
+				refs[ds] = ref
+				dss = append(dss, ds)
+			}
+		}
+	}
 	if len(dss) == 0 {
 		c.Fail("correspondence", "saved:no-dataset", "no shipped dataset could be loaded", nil)
 		return
